@@ -409,8 +409,18 @@ def mul_cases(cv, rng, ks_for, point_ms, ops=None, fixed_point=None):
     """ks_for(op) -> scalars to use with that routine."""
     cases = []
     c = cv.spec
+    D = 1 << cv.dgb
+    one_digit = [2, -2, 3, -3, D - 1, -(D - 1), (D >> 1) + 1, -((D >> 1) + 1), D, -D, D + 1, -(D + 1)]
     for op in (ops or (MUL_VAR + MUL_FIX + ["ep_mul_gen", "ep_mul_dig"])):
         ks = ks_for(op)
+        if op in ("ep_mul", "ep_mul_gen") and not fixed_point:
+            # the dispatchers have shortcuts for one-digit scalars: both signs, output distinct from / aliased to the input
+            for k in one_digit:
+                for al in ((0, 1) if op == "ep_mul" else (0,)):
+                    if op == "ep_mul":
+                        cases.append("%s %s %d %s %s" % (op, c, al, mul_point(cv, rng, point_ms), hx(k)))
+                    else:
+                        cases.append("%s %s 0 %s" % (op, c, hx(k)))
         if op == "ep_mul_lwreg":
             ks = lwreg_filter(cv, ks, 2)
         if op in MUL_FIX:
